@@ -412,6 +412,34 @@ func runPeer(c PeerCase) string {
 	rec := &recorder{}
 	p := cluster.VerifNewPeer(rec, mesh.PeerName(42))
 	defer p.Close()
+	// the cluster refreshes a live peer's activity every second (Swarm.update); without that a peer counts as inactive
+	// after 30 s and drops what it is handed - on a saturated machine a case can take that long
+	alive := make(chan struct{})
+	var amu sync.Mutex
+	stopped := false
+	stopAlive := func() {
+		amu.Lock()
+		if !stopped {
+			stopped = true
+			close(alive)
+		}
+		amu.Unlock()
+	}
+	defer stopAlive()
+	go func() {
+		for {
+			select {
+			case <-alive:
+				return
+			case <-time.After(500 * time.Millisecond):
+				amu.Lock()
+				if !stopped {
+					p.VerifSetActivity(time.Now().Unix())
+				}
+				amu.Unlock()
+			}
+		}
+	}()
 	var wg sync.WaitGroup
 	for g := 0; g < c.Senders; g++ {
 		wg.Add(1)
@@ -434,7 +462,7 @@ func runPeer(c PeerCase) string {
 	}
 	wg.Wait()
 	total := c.Senders * c.PerSend
-	deadline := time.Now().Add(20 * time.Second)
+	deadline := time.Now().Add(vkit.WaitCeiling)
 	for rec.count() < total && time.Now().Before(deadline) {
 		time.Sleep(2 * time.Millisecond)
 	}
@@ -459,6 +487,7 @@ func runPeer(c PeerCase) string {
 	// an inactive peer forwards nothing
 	before := len(rec.msgs)
 	rec.mu.Unlock()
+	stopAlive()
 	p.VerifSetActivity(0)
 	p.Send(&message.Message{ID: message.NewID(message.Ssid{1, 2}), Channel: []byte("a/"), Payload: []byte("late")})
 	time.Sleep(20 * time.Millisecond)
